@@ -204,13 +204,26 @@ func genFile(seed uint64, faulty bool) *Scenario {
 		nops = g.in(10, 40)
 	}
 	for o := 0; o < nops; o++ {
-		w.Ops = append(w.Ops, g.writerOp(fs, pInvalid))
+		op := g.writerOp(fs, pInvalid)
+		w.Ops = append(w.Ops, op)
+		if op.K == "k8s-swap" && g.pct(40) {
+			// a rewrite through the path right behind a swap: lands around the
+			// moment the watcher moves its directory watch
+			rw := Op{K: "rewrite", Part: g.filePart(pInvalid), N: g.in(1, 3)}
+			w.Ops = append(w.Ops, rw)
+			continue
+		}
 		switch g.r.IntN(4) {
 		case 0:
 			w.Ops = append(w.Ops, Op{K: "sleep", D: int64(g.in(1, 5000)) * 1e6})
 		case 1:
 			w.Ops = append(w.Ops, Op{K: "sleep", D: int64(g.in(1, 20)) * 60e9})
 		}
+	}
+	if fs.Layout == "k8s" && g.pct(30) {
+		// end with a swap immediately followed by a short rewrite through the path
+		w.Ops = append(w.Ops, Op{K: "k8s-swap", Part: g.filePart(pInvalid), N: g.in(0, 1)},
+			Op{K: "rewrite", Part: g.filePart(0), N: 1})
 	}
 	sc.Clients = append(sc.Clients, w)
 	if g.pct(40) {
